@@ -10,6 +10,7 @@ import Lemmas.Alter.PgIdentity
 import Lemmas.Alter.Address
 import Lemmas.Alter.Constraints
 import Lemmas.Alter.Succeeds
+import Lemmas.Alter.Complete
 /-!
 # C13 — alter_column changes only what it was asked to change, on every dialect
 
@@ -323,6 +324,14 @@ theorem constraints_untouched_without_type (d : Dialect) (r : Req) (h : r.type_ 
   have := hc st hst
   cases st <;> simp_all [constraintStmtOk, isConstraint]
 
+/-- **A type change is complete.** Unless the call raises, the named CHECK constraint owned by the
+stated existing type is dropped (on the dialects that drop type-bound CHECKs) and the CHECK
+constraint owned by the new type is added (everywhere but SQLite).  `Ty.ck` is the constraint of
+the type that is *effective* on the dialect, however the Boolean / Enum is reached (bare, as the
+impl of a TypeDecorator, as the dialect's variant). -/
+theorem constraints_complete (d : Dialect) (r : Req) : constraintComplete d r (alterColumn d r) = true :=
+  alterColumn_complete d r
+
 /-- nullable-only change of a column whose stated existing type owns a named CHECK constraint -/
 def constraintWitness : Req :=
   { table := "t1", column := "c1", schema := none,
@@ -335,6 +344,11 @@ example : (alterColumn .oracle constraintWitness).stmts = [.nullable ⟨none, "t
 /-- the checker rejects a stray DROP CONSTRAINT ahead of the requested statement -/
 example : constraintOk constraintWitness
     [.dropConstraint ⟨none, "t1"⟩ "ck_b1", .nullable ⟨none, "t1"⟩ "c1" false] = false := by decide
+
+/-- the checker rejects a type change that forgets the constraint half -/
+example : constraintComplete .oracle
+    { constraintWitness with type_ := some ⟨"VARCHAR2(1 CHAR)", false, some (some "en3")⟩ }
+    ⟨[.type_ ⟨none, "t1"⟩ "c1" "VARCHAR2(1 CHAR)" none], none⟩ = false := by decide
 
 /-- ... and accepts the drop when the type does change -/
 example : constraintOk { constraintWitness with type_ := some ⟨"INTEGER", false, none⟩ }
